@@ -986,6 +986,10 @@ class Interp(ExprMixin, StmtMixin):
         if self.is_ctxmgr:
             # the with-body runs here: arbitrary program code (may log, so the effect trace is havocked),
             # it may finish normally or raise anything
+            env_ = dict(self.entry_env)
+            env_.update({"L_" + k: v for k, v in self.st.env.items()})
+            for label, clause in self.contract.at_yield.items():
+                self.oblige(label, as_bool(self.spec_eval(clause, env_, clean=True)), node.lineno, clause=clause)
             self.st.effects = L.fresh("eff_body")
             self.st.env["ghost_body_effects"] = ZV(self.st.effects, "seq")
             if "profiler" in R.FIELDS:
